@@ -228,7 +228,7 @@ class Gf180Walker(h.HierarchyWalker):
         w = self.scale_param(params.w, 1000 * MILLI)
         l = self.scale_param(params.l, 1000 * MILLI)
 
-        modparams = GF180CapParams(c_width=w, c_length=l)
+        modparams = GF180CapParams(c_width=w, c_length=l, m=params.mult or 1)
 
         modcall = mod(modparams)
         CACHE.cap_modcalls[params] = modcall
